@@ -101,7 +101,37 @@ def r1_guarded_reinterpretation(ctx):
                     of = [x for x in sides if peel(x)[0] == 'call' and peel(x)[1] == 'std::any::TypeId::of']
                     via = [x for x in sides if any(y[0] == 'callind' and any(z[0] == 'field' and z[2] == 'vtable' for z in walk(y[1])) for y in walk(x))]
                     ok = len(of) == 1 and len(via) == 1 and of[0] is not via[0]
+        if not ok:
+            # the comparison lives in the thunk: `(self.vtable.<slot>)(TypeId::of::<T>())` with every thunk installed in that slot
+            # answering `TypeId::of::<its own T>() == id` (R2: generic thunks are instantiated at the vtable's T)
+            for b, t in ret_trees(fi):
+                t = peel(t)
+                if t[0] == 'callind' and peel(t[1])[0] == 'field' and any(y[0] == 'field' and y[2] == 'vtable' for y in walk(t[1])) and \
+                        len(t[2]) == 1 and peel(t[2][0])[0] == 'call' and peel(t[2][0])[1] == 'std::any::TypeId::of':
+                    ths = _slot_thunks(ctx.P, peel(t[1])[2])
+                    def cmp_own(g):
+                        rts = [atom_of(t2, ('eq', 1)) for _, t2 in ret_trees(g)]
+                        return bool(rts) and all(a and a[0] == 'cmp' and a[1] == 'eq' and
+                                                 sorted(['of' if (peel(x)[0] == 'call' and peel(x)[1] == 'std::any::TypeId::of') else ('arg' if peel(x)[0] == 'arg' else '?') for x in (a[2], a[3])]) == ['arg', 'of']
+                                                 for a in rts)
+                    ok = bool(ths) and all(g is not None and cmp_own(g) for g in ths)
         ctx.check(ok, 'is-compares-typeid', 'is::<T>() compares the stored type id with TypeId::of::<T>()', fi.where())
+
+
+def _slot_thunks(P, slot):
+    """the functions installed in slot `slot` of any VTable literal of the body module (None for an entry that is not a function item)"""
+    out = []
+    for f in P.fn_list:
+        if not (f.key.startswith(B) or f.key.startswith('<' + B)):
+            continue
+        for b in sorted(f.reachable()):
+            for i, st in enumerate(f.stmts(b)):
+                if st['k'] == 'assign' and st['r']['k'] == 'agg' and str(st['r'].get('adt', '')).endswith('VTable') and slot in st['r'].get('fields', []):
+                    t = f.expr_operand(st['r']['ops'][st['r']['fields'].index(slot)], b, i)
+                    while t[0] == 'cast':
+                        t = t[2]
+                    out.append(P.fns.get(t[1]) if t[0] == 'fnitem' else None)
+    return out
 
 
 ROLE = {  # vtable slot -> allowed thunks (generic ones must be instantiated at T)
@@ -330,6 +360,32 @@ def r3_drop_once(ctx):
                     via_vtable = lambda x: x[0] == 'callind' and any(y[0] == 'field' and y[2] == 'vtable' for y in walk(x[1])) and any(y[0] == 'field' and y[2] == 'data' for a_ in x[2] for y in walk(a_))
                     from_clone = (g is not fcl and dt[0] == 'arg') or (g is fcl and any(via_vtable(x) for x in walk(dt)))
                     ok = from_clone and any(x[0] == 'field' and x[2] == 'vtable' for x in walk(d['vtable'])) and any(x[0] == 'field' and x[2] == 'length' for x in walk(d['length']))
+        if not ok:
+            # the clone thunk builds the body: `(self.vtable.<slot>)(self)`, every thunk of that slot answering None or Some(Body { fresh
+            # data, length and vtable of the body it was given })
+            for b, t in ret_trees(fcl):
+                t = peel(t)
+                if t[0] == 'callind' and peel(t[1])[0] == 'field' and any(y[0] == 'field' and y[2] == 'vtable' for y in walk(t[1])) and \
+                        len(t[2]) == 1 and any(y[0] == 'arg' and y[1] == 1 for y in walk(t[2][0])):
+                    ths = _slot_thunks(ctx.P, peel(t[1])[2])
+                    def builds(g):
+                        good = True
+                        n_ = 0
+                        for _, t2 in ret_trees(g):
+                            t2 = peel(t2)
+                            if t2[0] == 'agg' and str(t2[1]).endswith('Option::None'):
+                                continue
+                            bs = [x for x in walk(t2) if x[0] == 'agg' and str(x[1]).endswith('Body::Body') and len(x) > 3]
+                            if not (t2[0] == 'agg' and str(t2[1]).endswith('Option::Some') and len(bs) == 1):
+                                return False
+                            n_ += 1
+                            d = dict(zip(bs[0][3], bs[0][2]))
+                            same = lambda v, nm: peel(v)[0] == 'field' and peel(v)[2] == nm and peel(peel(v)[1])[0] == 'arg' and peel(peel(v)[1])[1] in (1, 'original') or \
+                                (peel(v)[0] == 'field' and peel(v)[2] == nm and any(y[0] == 'arg' for y in walk(peel(v)[1])))
+                            good = good and same(d.get('length', ('unknown',)), 'length') and same(d.get('vtable', ('unknown',)), 'vtable') and \
+                                any(x[0] == 'call' and str(x[1]).endswith('Clone::clone') for x in walk(d.get('data', ('unknown',))))
+                        return good
+                    ok = bool(ths) and all(g is not None and builds(g) for g in ths)
         ctx.check(ok, 'clone-shares-vtable-and-length', 'a cloned body owns the cloned value and keeps the vtable and the declared length', fcl.where())
 
 
